@@ -93,6 +93,12 @@ func (link *Link) Validate(ctx context.Context, opts ...ValidationOption) error 
 		return fmt.Errorf("operationId %q and operationRef %q are mutually exclusive", link.OperationID, link.OperationRef)
 	}
 
+	if v := link.Server; v != nil {
+		if err := v.Validate(ctx); err != nil {
+			return fmt.Errorf("invalid server: %w", err)
+		}
+	}
+
 	return validateExtensions(ctx, link.Extensions)
 }
 
